@@ -12,6 +12,7 @@ TRACKING_ITEMS = [["utm_source", "tw"], ["utm_campaign", "x y"], ["UTM_MEDIUM", 
 AMP_ITEMS = [["amp", None], ["amp", "1"], ["amp_js_v", "0.1"], ["outputtype", "amp"], ["output", "amp"], ["mode", "amp"]]
 LOOKALIKE_ITEMS = [["utm", "1"], ["utmx", "1"], ["ref", "other"], ["s", "123"], ["s", "ab"], ["m", "2"], ["source", "rss"], ["xfbclid", "1"],
                    ["sessionids", "1"], ["at", "1"], ["amplify", "1"], ["output", "xml"], ["gaa", "1"], ["features", "1"]]
+PER_DOMAIN_ITEMS = [["t", "10s"], ["si", "abc"], ["_rdr", None], ["_rdc", "1"], ["ab_channel", "X"]]   # irrelevant on youtube / facebook only
 KEPT_ITEMS = [["id", "42"], ["page", "2"], ["q", "a b"], ["b", "2"], ["a", "1"], ["a", "0"], ["a", None], ["B", "x"], ["é", "ü"], ["x", ""], ["lang", "fr"],
               ["z", "%41"], ["k", "a%20b"], ["y", "a=b"], ["c", "a+b"]]
 FRAGMENTS = [None, None, None, "", "section", "top", "!/", "/", "!", "/route/1", "!/tweet", "!hashbang", "a/b", "%2Froute", "x y"]
@@ -33,7 +34,7 @@ def norm_structs(draw, dirty=False, platform_hosts=False, userinfo=True, lookali
         pool = L.IRRELEVANT_LABELS + L.AMP_LABELS + (L.LOOKALIKE_LABELS if lookalikes else [])
         pre.append(draw(st.sampled_from(pool)))
     if platform_hosts and draw(st.integers(0, 2)) == 0:
-        base = draw(st.sampled_from(["facebook.com", "youtube.com", "youtu.be", "m.facebook.com", "fr-fr.facebook.com"]))
+        base = draw(st.sampled_from(["facebook.com", "youtube.com", "youtu.be", "m.facebook.com", "fr-fr.facebook.com", "notyoutube.com", "myfacebook.com"]))
     else:
         labs = [draw(st.sampled_from(G.ASCII_LABELS + (G.IDN_LABELS + [G.puny(l) for l in G.IDN_LABELS[:2]] + ["xn--99999", "xn--0"] if idn else [])))
                 for _ in range(draw(st.integers(1, 2)))]
@@ -45,7 +46,7 @@ def norm_structs(draw, dirty=False, platform_hosts=False, userinfo=True, lookali
     if draw(st.integers(0, 5)) == 0:
         host = draw(st.sampled_from([host.upper(), host.title()]))
     s["host"] = host
-    s["port"] = draw(st.sampled_from([None, None, None, None, "80", "443", "8080", "", "8443"]))
+    s["port"] = draw(st.sampled_from([None, None, None, None, None, None, "80", "443", "8080", "", "8443", "0", "080", "08080"]))
     # path
     seg = G.text("segment", 1, 3) if dirty else G.clean_text(1, 3)
     segs = [draw(seg) for _ in range(draw(st.integers(0, 3)))]
@@ -70,7 +71,7 @@ def norm_structs(draw, dirty=False, platform_hosts=False, userinfo=True, lookali
     if n == 0:
         s["query"] = draw(st.sampled_from([None, None, None, []]))
     else:
-        pools = [KEPT_ITEMS, KEPT_ITEMS, TRACKING_ITEMS, AMP_ITEMS] + ([LOOKALIKE_ITEMS] if lookalikes else [])
+        pools = [KEPT_ITEMS, KEPT_ITEMS, TRACKING_ITEMS, AMP_ITEMS] + ([LOOKALIKE_ITEMS] if lookalikes else []) + ([PER_DOMAIN_ITEMS] if platform_hosts else [])
         items = [list(draw(st.sampled_from(draw(st.sampled_from(pools))))) for _ in range(n)]
         if dirty and draw(st.integers(0, 3)) == 0:
             items.append([draw(G.text("qkey", 1, 2)), draw(G.text("qvalue", 0, 2))])
